@@ -21,7 +21,14 @@ func c11Case(g *Gen, lc addchain.Chain) {
 	out := "err"
 	var o addchain.Chain
 	var err error
-	if p := safe(func() { o, err = dict.RunsChain(lc) }); p != "" {
+	if p := safe(func() {
+		// history: the elements of an earlier result are overwritten by the caller (they are the
+		// caller's to keep); a second call must not be affected
+		if prev, e := dict.RunsChain(cloneInts(lc)); e == nil {
+			c19scribble(prev...)
+		}
+		o, err = dict.RunsChain(lc)
+	}); p != "" {
 		out = "panic"
 	} else if err == nil {
 		out = encInts(o)
